@@ -446,7 +446,9 @@ class ConditionEvaluator(ast.NodeVisitor):
                         typ,
                         exclude_any=exclude_any,
                     ),
-                    left_varmap={varname_node.id: constrain_value(val, constraint)},
+                    # exactly the members that matched: constrain_value() would
+                    # also let in members that merely overlap with the type
+                    left_varmap={varname_node.id: subtract_unions(val, remaining)},
                     right_varmap={varname_node.id: remaining},
                 )
             return ConditionReturn(right_varmap={}, condition=NotCondition(condition))
